@@ -17,6 +17,7 @@ def run(chk):
     state_contracts.raise_if_orphaned_contract(chk, "C10")   # the orphan test used by operations that already exist (they send no START)
     state_contracts.merge_all_pages(chk, "C10")            # links of operations that already exist (history, checkpoint responses) are registered too
     from . import lockset
+    lockset.lock_order(chk, "C10.state.lock_order")
     lockset.lock_discipline(chk, "C10", ["_parent_done", "_parent_to_children", "_completed_contexts"])   # precondition of G for the orphan bookkeeping
     for kind in ("step", "child", "wfc"):
         ex = explore(kind)
